@@ -332,4 +332,34 @@ def rule_e(prog, rep):
             rep.ok('C07.e', f'Worterbuch::{fname}', f.loc, f'{len(oks)} Ok paths: one registration, one record in self.{table} under (client, transaction) with the same path')
 
 
-RULES = [('C07.e', rule_e), ('C07.a', rule_a), ('C07.b', rule_b), ('C07.c', rule_c), ('C07.d', rule_d)]
+def rule_f(prog, rep):
+    rep.rule('C07.f', 'T4+T7', 'the end of a session reaches the clean-up: the Disconnected request the front ends send is mapped, in the '
+             'regular / leader core loop (process_api_call) and in the follower\'s, to Worterbuch::disconnected(<that client id>, '
+             '<that address>) on every path of the arm')
+    from .c02 import api_match
+    crate = prog.crate(WB)
+    n = 0
+    for fname in ('process_api_call', 'leader_follower::follower::process_api_call'):
+        f = crate.fn(fname)
+        b = Bindings(crate, f)
+        m = api_match(crate, f)
+        arm = next((a for a in m['arms'] if [short(v) for v in pat_variants(a['pat'])] == ['Disconnected']), None)
+        if arm is None:
+            rep.violation('C07.f', f'{short(fname)}:Disconnected', f.loc, 'no arm for WbFunction::Disconnected', key=f'C07.f/{fname}/missing')
+            continue
+        n += 1
+        calls = [(nd, a) for nd, a in walk(arm['body']) if nd.get('k') == 'call' and callee(nd) == f'{CORE}::disconnected']
+        gs = [it for nd, a in calls for it in guards(a + (nd,)) if it[0] in ('if', 'match')]
+        okk = len(calls) == 1 and not gs
+        if okk:
+            a_ = calls[0][0]['args']
+            okk = b.origins(a_[1]) == {'param(function)#Disconnected.0'} and b.origins(a_[2]) == {'param(function)#Disconnected.1'}
+        if okk:
+            rep.ok('C07.f', f'{short(fname)}:Disconnected', f'{f.file}:{arm.get("ln")}', 'Worterbuch::disconnected(client id, address of the request), unconditionally')
+        else:
+            rep.violation('C07.f', f'{short(fname)}:Disconnected', f'{f.file}:{arm.get("ln")}', 'the arm does not call Worterbuch::disconnected with the '
+                          'request\'s client id and address on every path', key=f'C07.f/{fname}/Disconnected')
+    rep.floor('C07.f', n, 2, 'core loops with a Disconnected arm')
+
+
+RULES = [('C07.f', rule_f), ('C07.e', rule_e), ('C07.a', rule_a), ('C07.b', rule_b), ('C07.c', rule_c), ('C07.d', rule_d)]
